@@ -51,13 +51,11 @@ theorem C04_fd_multi_axis (c : FDCfg) (N : Nat) (specs : List (Nat × Nat × Nat
   fdNd_eq_mulVec c N specs hs x i hi
 
 -- non-vacuity / the four matrices displayed in the docstring (n = 4, over ℤ)
-private def rows (c : FDCfg) (n : Nat) : List (List Int) :=
-  (List.range (fdOutLen c n)).map (fun i => (List.range n).map (fun j => fdMatrix (α := Int) c n i j))
-example : rows ⟨.no, .no, false⟩ 4 = [[-1, 1, 0, 0], [0, -1, 1, 0], [0, 0, -1, 1]] := by decide
-example : rows ⟨.no, .no, true⟩ 4 = [[-1, 1, 0, 0], [0, -1, 1, 0], [0, 0, -1, 1], [1, 0, 0, -1]] := by decide
-example : rows ⟨.no, .b0, false⟩ 4 = [[-1, 1, 0, 0], [0, -1, 1, 0], [0, 0, -1, 1], [0, 0, 0, 0]] := by decide
-example : rows ⟨.b1, .b1, false⟩ 4 = [[1, 0, 0, 0], [-1, 1, 0, 0], [0, -1, 1, 0], [0, 0, -1, 1], [0, 0, 0, -1]] := by decide
-example : rows ⟨.b0, .b1, false⟩ 3 = [[0, 0, 0], [-1, 1, 0], [0, -1, 1], [0, 0, -1]] := by decide
+example : fdRows ⟨.no, .no, false⟩ 4 = [[-1, 1, 0, 0], [0, -1, 1, 0], [0, 0, -1, 1]] := by decide
+example : fdRows ⟨.no, .no, true⟩ 4 = [[-1, 1, 0, 0], [0, -1, 1, 0], [0, 0, -1, 1], [1, 0, 0, -1]] := by decide
+example : fdRows ⟨.no, .b0, false⟩ 4 = [[-1, 1, 0, 0], [0, -1, 1, 0], [0, 0, -1, 1], [0, 0, 0, 0]] := by decide
+example : fdRows ⟨.b1, .b1, false⟩ 4 = [[1, 0, 0, 0], [-1, 1, 0, 0], [0, -1, 1, 0], [0, 0, -1, 1], [0, 0, 0, -1]] := by decide
+example : fdRows ⟨.b0, .b1, false⟩ 3 = [[0, 0, 0], [-1, 1, 0], [0, -1, 1], [0, 0, -1]] := by decide
 example : (List.range 3).map (fdEval (α := Int) ⟨.b1, .no, false⟩ 3 (fun j => [5, 7, 4].getD j 0)) = [5, 2, -3] := by decide
 
 /-! ### stacks -/
